@@ -90,6 +90,10 @@ pub fn add_plan(rng: &mut Rng, profile: &str, tree: &Tree, inv: &mut Inv, oracle
     };
     for _ in 0..nb {
         let r = benign_rule(rng, &pred);
+        // (a syntax-tree dump of some megabytes through one-byte writes is millions of events)
+        if inv.debug != 0 && r.kind == "short_write" && (r.sel == "@1" || r.sel == "**") {
+            continue;
+        }
         inv.plan.push(r);
     }
     // a mount point below the walked directory: one sub-directory reports another device number
